@@ -345,7 +345,7 @@ func ruleArm(c *Ctx) {
 		cl, ok := ins.(*ssa.Call)
 		return ok && eng.CalleeName(&cl.Call) == "(net.PacketConn).WriteTo"
 	}
-	reg := c.NewRegion(wt, 2, func(h *ssa.Function) bool { return eng.PkgPathOf(h) != eng.Mod+"/service" })
+	reg := c.NewRegion(wt, 3, func(h *ssa.Function) bool { return eng.PkgPathOf(h) != eng.Mod+"/service" })
 	n := len(reg.FindCalls(func(nm string, _ *ssa.Call) bool { return nm == "(net.PacketConn).WriteTo" }))
 	c.Floor("ARM", "underlying sends in "+short(wt), n, 1)
 	// on every path, the deadline hook runs before the underlying send can run
@@ -364,25 +364,68 @@ func ruleArm(c *Ctx) {
 	ok, bad := reg.BeforeDeep(armedCalls, isSend)
 	c.Check("ARM", short(wt)+":deadline-extended-before-send", p.Pos(wt.Pos()), ok, fmt.Sprintf("a datagram can be sent through the association (%s) without the deadline hook having run first (e.g. only after a successful send): an association whose first send fails never gets a deadline and is never reclaimed", p.IPos(bad)))
 	_ = isExt
-	// the hook is given the destination address of this write
-	for _, cl := range reg.Calls() {
+	// the hook is given the destination address of this write (or something computed from it)
+	isStoreDL := func(ins ssa.Instruction) bool { _, ok := isStoreToField(ins, m.connT, m.dlField); return ok }
+	mayStore := reg.May(isStoreDL)
+	argsOf := func(cc *ssa.Call) []ssa.Value { return cc.Call.Args }
+	for _, cl := range eng.Calls(wt) {
 		call, isC := cl.(*ssa.Call)
-		if !isC || !armedCalls(call) {
+		if !isC || !mayStore(call) || isStoreDL(call) {
 			continue
 		}
 		okAddr := false
-		for i, ar := range call.Call.Args {
-			if i == 0 {
-				continue
-			}
-			if g, _ := p.AllFrom(ar, deepF, func(v ssa.Value) bool {
+		for _, ar := range call.Call.Args {
+			if p.AnyFrom(ar, eng.OriginOpts{ThroughConvert: true, ThroughCalls: argsOf}, func(v ssa.Value) bool {
 				pa, isP := v.(*ssa.Parameter)
 				return isP && pa.Parent() == wt && pa.Type().String() == "net.Addr"
-			}); g {
+			}) {
 				okAddr = true
 			}
 		}
-		c.CheckAt("ARM", short(call.Parent())+":deadline-hook-gets-destination", call, okAddr, "the deadline hook is not given the destination address of this write")
+		c.CheckAt("ARM", short(wt)+":deadline-hook-gets-destination", call, okAddr, "the deadline hook is not given (anything derived from) the destination address of this write")
+	}
+	// ORDER: on the write path the one-shot fast-close latch is consumed BEFORE the deadline is extended, never after: otherwise a
+	// reply read in between still wins the latch and sets the deadline to now, i.e. earlier than the one just promised
+	onceField := ""
+	for _, fl := range p.StructFields(m.connT) {
+		if fl.Type().String() == "sync.Once" {
+			onceField = fl.Name()
+		}
+	}
+	if onceField != "" {
+		isOnceDo := func(ins ssa.Instruction) bool {
+			cl, ok := ins.(*ssa.Call)
+			if !ok || eng.CalleeName(&cl.Call) != "(*sync.Once).Do" {
+				return false
+			}
+			t, f, _, ok := eng.FieldOf(cl.Call.Args[0])
+			return ok && t == m.connT && f == onceField
+		}
+		isSetDL := func(ins ssa.Instruction) bool {
+			cl, ok := ins.(*ssa.Call)
+			return ok && eng.MethodName(&cl.Call) == "SetReadDeadline"
+		}
+		mayOnce, maySet := reg.May(isOnceDo), reg.May(isSetDL)
+		nOnce := 0
+		for _, f := range reg.Fns {
+			for _, b := range f.Blocks {
+				for _, ins := range b.Instrs {
+					if isOnceDo(ins) {
+						nOnce++
+					}
+					if !maySet(ins) {
+						continue
+					}
+					late := eng.ReachableInstrs(eng.After(ins), mayOnce, nil)
+					if len(late) > 0 {
+						c.CheckAt("ARM", short(f)+":latch-consumed-before-deadline-extended", ins, false, fmt.Sprintf("on the write path the deadline is extended here and the fast-close latch is only consumed afterwards (%s): a reply read in between sets the deadline to now, earlier than the deadline just installed", p.IPos(late[0])))
+					}
+				}
+			}
+		}
+		if nOnce > 0 {
+			c.Check("ARM", short(wt)+":latch-before-extension-checked", p.Pos(wt.Pos()), true, fmt.Sprintf("%d latch uses on the write path, none after a deadline extension||", nOnce))
+		}
 	}
 	// every target write in the datagram region goes through the association's WriteTo (not the raw socket)
 	if a := findUDP(c, "ARM"); a != nil {
@@ -448,12 +491,15 @@ func ruleMonotone(c *Ctx) {
 				}
 			}
 			c.CheckAt("MONOTONE", key+":recorded", call, recorded, "the installed deadline is not recorded in the association's deadline field on the same edge: later comparisons use a stale value")
-			okForm := false
-			if ac, ok := v.(*ssa.Call); ok && eng.CalleeName(&ac.Call) == "(time.Time).Add" {
-				if nc, ok := p.Resolve(ac.Call.Args[0]).(*ssa.Call); ok && eng.CalleeName(&nc.Call) == "time.Now" {
-					okForm = true
+			isNowAdd := func(x ssa.Value) bool {
+				ac, ok := x.(*ssa.Call)
+				if !ok || eng.CalleeName(&ac.Call) != "(time.Time).Add" {
+					return false
 				}
+				nc, ok := p.Resolve(ac.Call.Args[0]).(*ssa.Call)
+				return ok && eng.CalleeName(&nc.Call) == "time.Now"
 			}
+			okForm, _ := p.AllFrom(v, deepF, isNowAdd)
 			c.CheckAt("MONOTONE", key+":now-plus-timeout", call, okForm, "the deadline is not computed as time.Now().Add(timeout)")
 		}
 	}
@@ -606,9 +652,18 @@ func ruleDNS(c *Ctx) {
 	c.Check("DNS", "dns-classifier-compares-port-53", "-", isDNSFn != nil, "no function classifies an address as DNS by comparing its port with \"53\"")
 	if isDNSFn != nil {
 		uses := false
-		for _, f := range ext {
-			reg := c.NewRegion(f, 2, func(h *ssa.Function) bool { return eng.PkgPathOf(h) != eng.Mod+"/service" })
+		roots := append([]*ssa.Function{}, ext...)
+		if m.connWrite != nil {
+			roots = append(roots, m.connWrite)
+		}
+		seenCall := map[ssa.Instruction]bool{}
+		for _, f := range roots {
+			reg := c.NewRegion(f, 3, func(h *ssa.Function) bool { return eng.PkgPathOf(h) != eng.Mod+"/service" })
 			for _, cl := range reg.Calls() {
+				if seenCall[cl] {
+					continue
+				}
+				seenCall[cl] = true
 				if call, ok := cl.(*ssa.Call); ok && callTo(c, call, isDNSFn) {
 					uses = true
 					okArg, _ := p.AllFrom(call.Call.Args[0], deepF, func(v ssa.Value) bool { _, ok := v.(*ssa.Parameter); return ok })
